@@ -240,7 +240,7 @@ func orefaReplay(h lib.History, upto int) (*fsImpl, lib.History, []string) {
 
 func corrOrefa(seed uint64, tier string, replay []string) *lib.Result {
 	res := &lib.Result{Property: "OREFA",
-		Rule: "template-driven random histories on a fresh OrefaFS (operands chosen from the paths its index resolves: existing dir/file, missing name, missing parent, below a file, \"/\", \"\", relative to the current directory, unclean forms; handle operations on the open files); after EVERY call the node graph and the index map of impl (verif hook) are compared with the model's; a history ends at the first panic or hang; a case is one call; distinct non-trivial = distinct (call kind, outcome, position bucket)"}
+		Rule: "template-driven random histories on a fresh OrefaFS (operands chosen from the paths its index resolves: existing dir/file, missing name, missing parent, below a file, \"/\", \"\", relative to the current directory, unclean forms; handle operations on the open files); after EVERY call the node graph and the index map of impl (verif hook) are compared with the model's; a history ends at the first panic or hang; plus the bounded-exhaustive scenarios file-admin and dir-handle of small.go (every sequence of ≤ 3 / ≤ 5 calls, thorough 4 / 6); a case is one call; distinct non-trivial = distinct (call kind, outcome, position bucket)"}
 	st := lib.NewStats()
 	opts := fsGenOpts{files: true, unclean: true, aliasing: true, orefa: true}
 	nh, nl := 600, 40
@@ -298,6 +298,25 @@ func corrOrefa(seed uint64, tier string, replay []string) *lib.Result {
 			}
 			hs = append(hs, h)
 			impls = append(impls, out)
+		}
+		// bounded-exhaustive scenarios (small.go) that need neither users nor symbolic links: one file through its name
+		// and two handles, one directory through a handle while it changes
+		for _, scn := range []string{"file-admin", "dir-handle"} {
+			sh, _ := smallHistories(tier, scn)
+			for _, h0 := range sh {
+				m := newFsImplOrefa()
+				h, out := lib.History{}, []string{}
+				for _, l := range h0 {
+					if m.dead {
+						break
+					}
+					l = "o" + l
+					h = append(h, l)
+					out = append(out, m.call(l))
+				}
+				hs = append(hs, h)
+				impls = append(impls, out)
+			}
 		}
 	}
 	model, err := lib.ModelExecAll(hs)
